@@ -124,7 +124,7 @@ def run(F, chk):
     # ------------------------------------------------------------------ R7.3
     save = [f for f in F.fn_named("nifly::NifFile::Save") if "ostream" in f["id"]]
     chk.require(len(save) == 1, "NifFile::Save(std::ostream&) not found")
-    save = save[0]
+    save = F.inl(save[0])  # private helpers of Save (PutBlocks, PutBlockSizes, ...) are read as part of it
     problems = []
     seen = {"hdrput": 0, "blockput": 0, "capture": 0, "init": 0, "footer": 0, "seekp": 0, "patch": 0}
 
@@ -186,13 +186,38 @@ def run(F, chk):
 
     Proto(F, save).run()
     # structural details that need the loop shapes
-    loops = [n for n in walk(save["body"]) if n["k"] == "For"]
+    loops = [n for n in walk(save["body"]) if n["k"] in ("For", "RangeFor")]
     put_loop = [l for l in loops if any(x["k"] == "Call" and x.get("short") == "Put" and x.get("virt") for x in walk(l["body"]))]
     patch_loop = [l for l in loops if l not in put_loop and any(is_stream_write(x) for x in walk(l["body"]))]
+    # locals that are defined once stand for their initialiser (a hoisted `numBlocks`, a helper's parameter bound to the
+    # caller's vector, the vector a helper returned)
+    assigned_ = {x["l"]["id"] for x in walk(save["body"]) if x["k"] == "Assign" and is_node(x["l"]) and x["l"]["k"] == "Ref"}
+    def_of = {}
+    for d_ in walk(save["body"]):
+        if d_["k"] == "Decl":
+            for v_ in d_.get("vars", []):
+                if is_node(v_.get("init")) and v_["id"] not in assigned_:
+                    def_of[v_["id"]] = v_["init"]
+
+    def resolve(e, depth=0):
+        while is_node(e) and e["k"] in ("Cast", "Construct") and (e.get("e") is not None or (len(e.get("args", [])) == 1 and e.get("copy"))):
+            e = e["e"] if e.get("e") is not None else e["args"][0]
+        if depth < 6 and is_node(e) and e["k"] == "Ref" and e.get("id") in def_of:
+            return resolve(def_of[e["id"]], depth + 1)
+        return e
+
+    captured_vec = None
+    for n_ in walk(save["body"]):
+        if n_["k"] == "Assign" and any(x["k"] == "Call" and x.get("short") == "GetBlockSize" for x in walk(n_["r"])):
+            captured_vec = _subscript_base(n_["l"])
 
     def bound_is_numblocks(l):
+        if l["k"] == "RangeFor":
+            # a range loop over the vector the sizes were captured into (one entry per block by construction)
+            r_ = resolve(l["range"])
+            return is_node(captured_vec) and is_node(r_) and show(r_) == show(resolve(captured_vec))
         c = l.get("cond")
-        return is_node(c) and c["k"] == "Binary" and c["op"] == "<" and "GetNumBlocks" in show(c["r"])
+        return is_node(c) and c["k"] == "Binary" and c["op"] == "<" and "GetNumBlocks" in show(resolve(c["r"]))
 
     checks = [
         ("header written once", seen["hdrput"] == 1),
@@ -215,7 +240,7 @@ def run(F, chk):
     # the back-patch sits on every path to `return 0` when a position was recorded: it is not inside a data condition
     # other than the position test
     # NiHeader::Put records the position immediately before the size loop
-    put = F.fn1("nifly::NiHeader::Put")
+    put = F.inl(F.fn1("nifly::NiHeader::Put"))
     ok_pos = False
     for comp in walk(put["body"]):
         if comp["k"] != "Compound":
@@ -448,4 +473,6 @@ def _patch_ok(loop, save):
         if n["k"] == "Assign" and any(x["k"] == "Call" and x.get("short") == "GetBlockSize" for x in walk(n["r"])):
             captured = show(_subscript_base(n["l"]))
     arg = w["args"][1]
+    if loop["k"] == "RangeFor":
+        return captured is not None and any(x["k"] == "Ref" and x.get("id") == loop["var"]["id"] for x in walk(arg))
     return captured is not None and captured in show(arg)
